@@ -581,6 +581,20 @@ pub fn scratch_root() -> String {
 		std::env::temp_dir().to_str().unwrap().to_owned()
 	};
 	let d = format!("{}/gwverif-{}", base, std::process::id());
+	static SWEEP: std::sync::Once = std::sync::Once::new();
+	SWEEP.call_once(|| {
+		// remove scratch directories left behind by runs that were killed
+		if let Ok(rd) = fs::read_dir(&base) {
+			for e in rd.flatten() {
+				let name = e.file_name().to_string_lossy().to_string();
+				if let Some(pid) = name.strip_prefix("gwverif-") {
+					if !Path::new(&format!("/proc/{}", pid)).exists() {
+						let _ = fs::remove_dir_all(e.path());
+					}
+				}
+			}
+		}
+	});
 	fs::create_dir_all(&d).unwrap();
 	d
 }
